@@ -783,40 +783,38 @@ impl Update {
                 keys_set.insert(keys);
             }
         }
+        // If a column is assigned more than once, the last assignment wins;
+        // the earlier ones (validated above) have no other effect, and in
+        // particular don't pass through the string pool.
+        let mut assignments = Vec::<(usize, &Value)>::new();
+        for (&index, (_, value)) in
+            update_indices.iter().zip(self.updates.iter())
+        {
+            match assignments.iter_mut().find(|entry| entry.0 == index) {
+                Some(entry) => entry.1 = value,
+                None => assignments.push((index, value)),
+            }
+        }
         // Make sure that the string pool has room for the new strings.
         string_pool.check_capacity(
             rows.iter()
                 .zip(should_update.iter())
                 .filter(|&(_, &update)| update)
                 .flat_map(|(value_refs, _)| {
-                    let update_indices = &update_indices;
-                    update_indices
-                        .iter()
-                        .zip(self.updates.iter())
-                        .enumerate()
-                        .map(move |(pos, (&index, (_, value)))| {
-                            // (If a column is assigned more than once, only
-                            // the first assignment releases the old value.)
-                            let old_ref = match value_refs[index] {
-                                ValueRef::Str(string_ref)
-                                    if !update_indices[..pos]
-                                        .contains(&index) =>
-                                {
-                                    Some(string_ref)
-                                }
-                                _ => None,
-                            };
-                            (old_ref, value.string_to_intern())
-                        })
+                    assignments.iter().map(move |&(index, value)| {
+                        let old_ref = match value_refs[index] {
+                            ValueRef::Str(string_ref) => Some(string_ref),
+                            _ => None,
+                        };
+                        (old_ref, value.string_to_intern())
+                    })
                 }),
         )?;
         // Update the rows.
         for (value_refs, &update) in rows.iter_mut().zip(should_update.iter())
         {
             if update {
-                for (&index, (_, value)) in
-                    update_indices.iter().zip(self.updates.iter())
-                {
+                for &(index, value) in assignments.iter() {
                     let value_ref = &mut value_refs[index];
                     value_ref.remove(string_pool);
                     *value_ref = ValueRef::create(value.clone(), string_pool);
